@@ -127,6 +127,7 @@ DIRECTED = (
     "phylip-strict-10-char-labels", "nexml-unnamed-multistate", "nexml-rejects-nucleotide-infinite",
     "gap-missing-every-type", "two-otus-nexml", "standard-custom-alphabet-export", "cli-subprocess-nexus-phylip", "cli-subprocess-fasta-nexus",
     "cli-subprocess-phylip-nexml", "special-chars-each-position", "digit-labels", "fasta-wrap-boundary",
+    "standard-concatenated-nexml",
 )
 
 
@@ -1462,7 +1463,7 @@ def rt_fixed(ctx, rng, S, dtype, labels, rows, fmt, variant, alphabet=None, rout
     m, sa, exp, judged = built
     model = check_construct(ctx, m, exp, dtype, alphabet, route, judged)
     ctx.nontrivial(sig_of("directed:" + name, dtype, fmt, variant, route, model))
-    return roundtrip(ctx, rng, S, m, sa, model, dtype, alphabet, fmt, variant, info={"directed": name}, tmp=tmp)
+    return roundtrip(ctx, rng, S, m, sa, model, dtype, alphabet, fmt, variant, info={"directed": name, "route": route}, tmp=tmp)
 
 
 def run_directed(case, ctx, rng, S, tmp):
@@ -1522,6 +1523,11 @@ def run_directed(case, ctx, rng, S, tmp):
                   info={"directed": name})
         if fmt == "nexml":
             roundtrip(ctx, rng, S, m, None, got, dtype, alphabet, fmt, "seqs", info={"directed": name})
+    elif name == "standard-concatenated-nexml":
+        # witness of the recorded concatenate() finding: cells of the result are state objects of the source alphabets
+        rows = [list("0123456"), list("6543210"), list("01?-345")]
+        for variant in ("cells", "seqs"):
+            rt_fixed(ctx, rng, S, "standard", ["a", "b", "c"], rows, "nexml", variant, alphabet="digits", route="concat", name=name)
     elif name == "standard-equate":
         rt_fixed(ctx, rng, S, "standard", ["a", "b"], [list("01R-"), list("S?10")], "nexus", "default",
                  alphabet="named-amb", name=name)
